@@ -14,6 +14,7 @@ pub mod c10;
 pub mod c15;
 #[cfg(feature = "mock")]
 pub mod c16;
+pub mod history;
 pub mod c13;
 pub mod c14;
 pub mod c12;
